@@ -64,6 +64,10 @@ type vTeeRec struct {
 	wg   sync.WaitGroup
 	wait time.Duration
 	n    int
+	// mainReads: the main chain reads its copy of the stream before it returns (then a tee that
+	// feeds the branch through the pipe runs in lock-step); otherwise it returns at once, which is
+	// what exposes a branch that still looks at the pooled buffer
+	mainReads bool
 }
 
 var vTee = &vTeeRec{}
@@ -99,23 +103,27 @@ func (*vSink) Handle(cx *layer4.Connection, _ layer4.Handler) error {
 	defer vTee.wg.Done()
 	own, _ := cx.GetVar("verif_c08_id").(int)
 	time.Sleep(vTee.wait)
-	hdr := make([]byte, 5)
-	if _, err := io.ReadFull(cx, hdr); err != nil {
-		vTee.mu.Lock()
-		vTee.got = append(vTee.got, nil)
-		vTee.ids = append(vTee.ids, own)
-		vTee.mu.Unlock()
-		return nil
-	}
-	// every stream of a round has the same length, so the number of buffered bytes is known
+	// every stream of a round has the same length, so the number of bytes to expect is known
 	// without trusting the (possibly foreign) bytes just read
 	n := vTee.n
-	rest := make([]byte, n-5)
-	// the whole stream was prefetched before the tee ran, so these bytes come from the
-	// branch's copy of the matching buffer (never from the pipe, which nobody feeds)
-	k, _ := io.ReadFull(cx, rest)
+	type rr struct{ b []byte }
+	ch := make(chan rr, 1)
+	go func() {
+		buf := make([]byte, n)
+		k, _ := io.ReadFull(cx, buf)
+		ch <- rr{buf[:k]}
+	}()
+	var got []byte
+	select {
+	case r := <-ch:
+		got = r.b
+	case <-time.After(400 * time.Millisecond):
+		// nothing (more) arrives: with a main chain that does not read, a tee that feeds the
+		// branch through its pipe delivers nothing, which is fine for this property
+		got = nil
+	}
 	vTee.mu.Lock()
-	vTee.got = append(vTee.got, append(hdr, rest[:k]...))
+	vTee.got = append(vTee.got, got)
 	vTee.ids = append(vTee.ids, own)
 	vTee.mu.Unlock()
 	return nil
@@ -131,7 +139,9 @@ func (*vQuick) CaddyModule() caddy.ModuleInfo {
 	return caddy.ModuleInfo{ID: "layer4.handlers.verif_c08_quick", New: func() caddy.Module { return new(vQuick) }}
 }
 func (*vQuick) Handle(cx *layer4.Connection, _ layer4.Handler) error {
-	_, _ = io.ReadFull(cx, make([]byte, vTee.n))
+	if vTee.mainReads {
+		_, _ = io.ReadFull(cx, make([]byte, vTee.n))
+	}
 	return nil
 }
 
@@ -143,7 +153,7 @@ func init() {
 
 // ---- the run ----------------------------------------------------------------------------------
 
-func vTeeRound(t *testing.T, out *vOut, procs, nconn int, wait time.Duration, seed int64, round int) (checked, bad int) {
+func vTeeRound(t *testing.T, out *vOut, procs, nconn int, wait time.Duration, seed int64, round int, mainReads bool) (checked, bad int) {
 	old := runtime.GOMAXPROCS(procs)
 	defer runtime.GOMAXPROCS(old)
 
@@ -183,6 +193,7 @@ func vTeeRound(t *testing.T, out *vOut, procs, nconn int, wait time.Duration, se
 	vTee.got = nil
 	vTee.ids = nil
 	vTee.wait = wait
+	vTee.mainReads = mainReads
 	rng := vNewRng(seed*1000003 + int64(round))
 	vTee.n = 16 + rng.Intn(400)
 	vTee.mu.Unlock()
@@ -223,7 +234,7 @@ func vTeeRound(t *testing.T, out *vOut, procs, nconn int, wait time.Duration, se
 	vTee.mu.Lock()
 	defer vTee.mu.Unlock()
 	for gi, g := range vTee.got {
-		if g == nil {
+		if len(g) == 0 {
 			continue
 		}
 		checked++
@@ -260,10 +271,16 @@ func TestVerifC08Tee(t *testing.T) {
 	}
 	total, totalBad := 0, 0
 	for i, c := range cfgs {
-		n, b := vTeeRound(t, out, c.procs, c.nconn, c.wait, seed, i)
+		n, b := vTeeRound(t, out, c.procs, c.nconn, c.wait, seed, 2*i, true)
 		total += n
 		totalBad += b
-		out.Case(fmt.Sprintf("CStress \"tee\" %d %d %d %d", c.procs, c.nconn, n, b), fmt.Sprintf("tee/procs=%d", c.procs), n >= 2, nil)
+		out.Case(fmt.Sprintf("CStress \"tee\" %d %d %d %d", c.procs, c.nconn, n, b), fmt.Sprintf("tee/main-reads/procs=%d", c.procs), n >= 2, nil)
+		// main chain returns without reading (fewer connections: each branch may wait for its timeout)
+		nc := c.nconn / 4
+		n, b = vTeeRound(t, out, c.procs, nc, c.wait, seed, 2*i+1, false)
+		total += n
+		totalBad += b
+		out.Case(fmt.Sprintf("CStress \"tee\" %d %d %d %d", c.procs, nc, n, b), fmt.Sprintf("tee/main-returns/procs=%d", c.procs), true, nil)
 	}
 	out.Stat("tee.branches_checked", total)
 	out.Stat("tee.branches_with_foreign_bytes", totalBad)
